@@ -1176,3 +1176,113 @@ Proof.
   - destruct (existsb (fun r : arange => snd (snd r)) (snd ag)) eqn:Ex; [|reflexivity].
     apply existsb_exists in Ex as [r' [Hr' Hf]]. rewrite (Huni ag ar r' Hag Har Hr') in Ef. congruence.
 Qed.
+
+(* ====================================================================================== *)
+(* ---------- the published snapshot (configmgr step model) ---------- *)
+Definition cm_ok (st : cmstate) : Prop := snap st = build (running st) /\ validate_strict (running st) = VOk.
+
+Lemma cm_init_ok : cm_ok cm_init.
+Proof. split; reflexivity. Qed.
+
+Lemma cm_commit_ok st cfg : cm_ok st -> cm_ok (cm_commit st cfg).
+Proof.
+  intros H. unfold cm_commit. destruct (validate_strict cfg) eqn:V; [|exact H|exact H].
+  split; [reflexivity|exact V].
+Qed.
+
+Lemma cm_commits_ok cfgs : forall st, cm_ok st -> cm_ok (fold_left cm_commit cfgs st).
+Proof. induction cfgs as [|c cs IH]; intros st H; [exact H|]. apply IH, cm_commit_ok, H. Qed.
+
+(* a rejected candidate changes nothing; an accepted one is published as a whole *)
+Lemma cm_commit_cases st cfg :
+  (validate_strict cfg <> VOk /\ cm_commit st cfg = st) \/
+  (validate_strict cfg = VOk /\ running (cm_commit st cfg) = cfg /\ snap (cm_commit st cfg) = build cfg).
+Proof. unfold cm_commit. destruct (validate_strict cfg) eqn:V; [right; auto|left; split; [discriminate|reflexivity]..]. Qed.
+
+(* in a published state every (S-VLAN, selector) key has at most one claimant, so the answer does not depend on the
+   first-wins order at all: a covering exact claim IS the answer, a covering wildcard claim is the answer when no
+   exact claim exists *)
+Lemma cm_unique_exact st s c cl :
+  cm_ok st -> In cl (claims (running st)) -> c_svlan cl = s -> c_sel cl = SelExact c ->
+  cm_lookup st s c = Some (c_name cl, c_idx cl).
+Proof.
+  intros [Hs Hv] Hin Hsv Hse. unfold cm_lookup. rewrite Hs.
+  destruct (exact_wins (running st) s c cl Hin Hsv Hse) as [cl' [Hin' [Hs' [Hse' L]]]].
+  apply strict_accepts_iff in Hv as [_ Hnd]. apply validate_accepts_iff in Hnd.
+  assert (cl' = cl) by (eapply validate_sound; eauto; congruence). subst. exact L.
+Qed.
+
+Lemma cm_unique_wildcard st s c cl :
+  cm_ok st -> In cl (claims (running st)) -> c_svlan cl = s -> c_sel cl = SelAny ->
+  (forall cl', In cl' (claims (running st)) -> c_svlan cl' = s -> c_sel cl' <> SelExact c) ->
+  cm_lookup st s c = Some (c_name cl, c_idx cl).
+Proof.
+  intros [Hs Hv] Hin Hsv Hse Hno. unfold cm_lookup. rewrite Hs, lookup_is_reference.
+  unfold ref_lookup, ref_lookup_in.
+  assert (E1 : find (key_eqb s (SelExact c)) (claims (running st)) = None).
+  { apply find_none_iff; intros x Hx. destruct (key_eqb s (SelExact c) x) eqn:K; [|reflexivity].
+    apply key_eqb_eq in K; inversion K. exfalso. apply (Hno x Hx); congruence. }
+  rewrite E1. destruct (find (key_eqb s SelAny) (claims (running st))) as [cl'|] eqn:E2.
+  - apply find_some in E2 as [Hin' K]. apply key_eqb_eq in K; inversion K.
+    apply strict_accepts_iff in Hv as [_ Hnd]. apply validate_accepts_iff in Hnd.
+    assert (cl' = cl) by (eapply validate_sound; eauto; congruence). subst. reflexivity.
+  - exfalso. apply (proj1 (find_none_iff _ _)) with (x := cl) in E2; [|exact Hin].
+    assert (key_eqb s SelAny cl = true) by (apply key_eqb_eq; unfold key; congruence). congruence.
+Qed.
+
+(* concurrent readers: every answer a reader gets is the answer of ONE generation as a whole — the one that was
+   running when the reader loaded the pointer — never a mixture *)
+Definition held_in (h : held) (gens : list config) : Prop := forall r, In (h r) gens.
+
+Lemma cm_generations_head es : forall st, In (running st) (cm_generations st es).
+Proof.
+  induction es as [|e es IH]; intros st; cbn [cm_generations]; [left; reflexivity|].
+  destruct e; [left; reflexivity|apply IH|apply IH].
+Qed.
+
+Lemma cm_run_reads es : forall st h past,
+  In (running st) past -> held_in h past ->
+  forall o, In (Some o) (cm_run (st, h) es) ->
+  exists g s c, In g (past ++ cm_generations st es) /\ o = lookup (build g) s c.
+Proof.
+  induction es as [|e es IH]; intros st h past Hst Hh o; cbn [cm_run]; [intros []|].
+  destruct e as [cfg|r|r s c]; cbn [cm_step cm_generations].
+  - intros [Hd|Hin]; [discriminate|].
+    destruct (IH (cm_commit st cfg) h (past ++ [running (cm_commit st cfg)])) with (o := o) as [g [s [c [Hg Ho]]]].
+    + apply in_or_app; right; left; reflexivity.
+    + intros r. apply in_or_app; left; apply Hh.
+    + exact Hin.
+    + exists g, s, c. split; [|exact Ho]. rewrite <- app_assoc in Hg. cbn [app] in Hg.
+      apply in_app_iff in Hg as [Hg|[Hg|Hg]].
+      * apply in_or_app; left; exact Hg.
+      * apply in_or_app; right. right. subst g. apply cm_generations_head.
+      * apply in_or_app; right; right; exact Hg.
+  - intros [Hd|Hin]; [discriminate|].
+    apply (IH st (fun r' => if Nat.eqb r' r then running st else h r') past Hst); [|exact Hin].
+    intros r'. destruct (Nat.eqb r' r); [exact Hst|apply Hh].
+  - intros [Hd|Hin].
+    + inversion Hd; subst. exists (h r), s, c. split; [apply in_or_app; left; apply Hh|reflexivity].
+    + apply (IH st h past Hst Hh o Hin).
+Qed.
+
+Lemma cm_generations_ok es : forall st, cm_ok st ->
+  forall g, In g (cm_generations st es) -> validate_strict g = VOk.
+Proof.
+  induction es as [|e es IH]; intros st H g; cbn [cm_generations].
+  - intros [<-|[]]; apply H.
+  - destruct e as [cfg|r|r s c]; [|apply IH; exact H|apply IH; exact H].
+    intros [<-|Hg]; [apply H|]. apply (IH (cm_commit st cfg)); [apply cm_commit_ok; exact H|exact Hg].
+Qed.
+
+Lemma cm_reads_from_init es o :
+  In (Some o) (cm_run (cm_init, fun _ => running cm_init) es) ->
+  exists g s c, In g (cm_generations cm_init es) /\ validate_strict g = VOk /\ o = lookup (build g) s c.
+Proof.
+  intros H.
+  destruct (cm_run_reads es cm_init (fun _ => running cm_init) [running cm_init]) with (o := o)
+    as [g [s [c [Hg Ho]]]]; [left; reflexivity|intros r; left; reflexivity|exact H|].
+  assert (Hg' : In g (cm_generations cm_init es)).
+  { cbn [app] in Hg. destruct Hg as [<-|Hg]; [apply cm_generations_head|exact Hg]. }
+  exists g, s, c. split; [exact Hg'|]. split; [|exact Ho].
+  eapply cm_generations_ok; [apply cm_init_ok|exact Hg'].
+Qed.
